@@ -1,6 +1,6 @@
 \* C06: registry instance, three connections of A and one of B; all interleavings of
 \* admit / register / client frame / close / disconnect (by id, by key) / unregister / notify
-SPECIFICATION SpecAdmin
+SPECIFICATION SpecRegistry
 INVARIANT TypeOK RegistryShape NewestWins PacketsWellAddressed AtMostOnce FifoPerSender WireClean Isolation
 PROPERTY GoneOnlyOnEntryRemoval DisplacedIsTold PromotedIsTold StatusToTheRightOne AcceptedByActiveOnly ReadTouchesOnlySelf LeavesOnlyForOwnReasons
 CHECK_DEADLOCK FALSE
